@@ -381,7 +381,9 @@ pub fn eval_visual(cfg: &Cfg, scene: u64, epoch: usize, dets: &[Det], cands: &[&
         }
         m.values().cloned().max().unwrap_or(1)
     };
-    VOTE_NOISE.with(|n| n.set(max_votes as f64 * 1e-5 * max_seen.max(1e-3)));
+    // (the ABSOLUTE error of a distance does not shrink with the distance: 1 - cos is computed from a similarity near 1, a
+    // Euclidean distance from coordinates of unit magnitude)
+    VOTE_NOISE.with(|n| n.set(max_votes as f64 * 2e-6 * max_seen.max(1.0)));
     let mut claims: Vec<Claim> = vec![];
     for (i, j, d) in &emitted {
         match claims.iter_mut().find(|c| c.det == *i && c.track == cands[*j].id) {
@@ -414,7 +416,7 @@ thread_local! {
 
 /// A weight is sum(largest emitted distance - d) over the votes; the library computes every feature distance in f32
 /// (SIMD, relative error up to ~1e-5 by C16's own tolerance), so a weight carries an ABSOLUTE error of about
-/// votes x 1e-5 x largest distance whatever its own magnitude. Two weights are clearly ordered only beyond that noise
+/// votes x 2e-6 x max(largest distance, 1) whatever its own magnitude (features have unit scale). Two weights are clearly ordered only beyond that noise
 /// (and beyond 1e-4 relative).
 fn clearly_greater(a: f64, b: f64) -> bool {
     let noise = VOTE_NOISE.with(|n| n.get());
